@@ -190,6 +190,23 @@ def _run(V, work, tier):
                 lintin.append({"id": cid, "src": src})
                 runin.append({"id": cid, "src": src, "cfg": {"nostdlib": True}})
                 meta[cid] = ("place", {"k": -1, "head": head, "place": pl, "style": style}, "plain", src)
+    # lists that LOOK like a call with the wrong number of arguments but are never evaluated as one: data inside quoted
+    # lists, loop variables, binding pairs, formal parameter lists, handler bindings; every program runs without an error
+    NONCALLS = [("quoted-nested", "car", "(set 'x '(1 (car)))"), ("quoted-nested", "car", "(set 'x '((car)))"), ("quoted-nested", "cons", "(set 'x '(a (b (cons 1))))"),
+                ("quote-form", "car", "(set 'x (quote (car)))"), ("quote-form-nested", "car", "(set 'x (quote (1 (car))))"), ("quoted-flat", "car", "(set 'x '(car))"),
+                ("dotimes-var", "car", "(dotimes (car 2) (list car))"), ("dotimes-var", "nth", "(dotimes (nth 3) (list nth))"),
+                ("let-pair", "cons", "(let ((cons 1)) cons)"), ("let-pair", "cons", "(let ([cons 1]) cons)"), ("let*-pair", "cons", "(let* ((car 1) (cons car)) cons)"),
+                ("lambda-formals", "car", "((lambda (car) car) 1)"), ("lambda-formals", "cons", "((lambda (cons) cons) 1)"), ("defun-formals", "car", "(defun usecar (car) car)\n(usecar 1)"),
+                ("defun-formals", "cons", "(defun usecons (cons) cons)\n(usecons 1)"), ("defmacro-formals", "car", "(defmacro qm (car) (list 'quote car))\n(qm 1)"),
+                ("handler-binding", "cons", "(handler-bind ((cons (lambda (c &rest r) 1))) (error 'cons 1))"), ("flet-header", "car", "(flet ((car () 1)) 2)"),
+                ("labels-header", "cons", "(labels ((cons (a) a)) 2)"), ("macrolet-header", "car", "(macrolet ((car () 1)) 2)"), ("cond-clause", "car", "(cond ((car '(1)) 1))"),
+                ("keyword-data", "car", "(list :car 1)"), ("string-data", "car", "(list \"(car)\")")]
+    for place, head, src in NONCALLS:
+        cid = "n%d" % n
+        n += 1
+        lintin.append({"id": cid, "src": src})
+        runin.append({"id": cid, "src": src, "cfg": {"nostdlib": True}})
+        meta[cid] = ("noncall", {"k": -1, "head": head, "place": place}, "plain", src)
     # package-qualified heads: a function of ANOTHER package that shares its bare name with a builtin of different arity
     # (defined in a file the linter is not shown), and builtins called through their own package name
     CFGPKG = "(in-package 'cfg)\n(defun get (m key default) default)\n(defun car (a b) (list a b))\n(defun cons (a) a)\n(export 'get 'car 'cons)\n(in-package 'user)"
@@ -204,7 +221,7 @@ def _run(V, work, tier):
             meta[cid] = ("qual", {"k": -1, "head": head, "call": call}, "plain", src)
     lints = {r["id"]: r for r in driver_json(binary, ["lint"], lintin)}
     runs = {r["id"]: r["runs"][0]["evals"][-1] for r in driver_json(binary, ["run"], [dict(r, seq=r.get("seq") or [r["src"]]) for r in runin])}
-    cnt = {"shape": 0, "registry": 0, "shadow": 0, "place": 0, "qual": 0}
+    cnt = {"shape": 0, "registry": 0, "shadow": 0, "place": 0, "qual": 0, "noncall": 0}
     for cid, (kind, p, mode, src) in meta.items():
         cnt[kind] += 1
         L = lints[cid]
@@ -221,6 +238,14 @@ def _run(V, work, tier):
             # builtins must be reported when they fail)
             if not reported and dyn == "arity" and p["call"].startswith("(lisp:"):
                 V.add(None, "lint accepts a package-qualified call that fails with invalid number of arguments: %s" % p["call"], {"src": src})
+            continue
+        if kind == "noncall":
+            reported = any(d["msg"].startswith(p["head"] + " ") for d in diags)
+            dyn = classify(ev)
+            if dyn != "ok":
+                raise MachineryError("a non-call program does not run: %s (%s)" % (src, dyn))
+            if reported:
+                V.add("noncall-reported:" + p["place"], "lint reports a list that is never evaluated as a call (%s): %s" % (p["place"], src.splitlines()[0]), {"src": src, "diags": diags})
             continue
         if kind == "place":
             head = p["head"]
